@@ -57,8 +57,11 @@ struct Wire {
     chk: u64,
 }
 
+/// Checksum carried on the wire. Kept to 16 bits so that every number in a serialized world is
+/// small: the hostile-input monitor moves numbers around, and a declared length must stay within
+/// what the property's quantifier allows (bounded by the input size, not 2^64).
 fn wire_chk(tag: u32, val: u64) -> u64 {
-    mix2(0x5eed_0000 + tag as u64, val)
+    mix2(0x5eed_0000 + tag as u64, val) & 0xffff
 }
 
 fn hdr_chk(iid: u64, tag: u32, val: u64) -> u64 {
